@@ -127,7 +127,11 @@ def inlinable(facts, caller, t, stack, mode='all'):
         return None
     if len(t['args']) != h.argc:
         return None
-    same_type = h.impl_adt is not None and h.impl_adt == caller.impl_adt
+    cadt = caller.impl_adt
+    if cadt is None and caller.kind == 'closure' and caller.root:
+        rl = facts.by_path.get(caller.root)
+        cadt = rl[0].impl_adt if rl else None
+    same_type = h.impl_adt is not None and h.impl_adt == cadt
     same_module_free = h.kind == 'fn' and caller.kind in ('fn', 'closure') and module_of(h.path) == module_of(caller.root or caller.path)
     # a private `fn pred(&self) -> bool` of a sibling type of the same module (`SideReceiver::has_cached_items` used by
     # `BinaryStartReceiver::select`): a named sub-condition.  Only helpers that no rule names are expanded (a rule that speaks about
